@@ -98,7 +98,15 @@ def run_case(ns, mon, c):
 
     def both(arrs, fa, fb, tolv=None, tolg=None):
         """arrs: list of leaf arrays; fa/fb: functions of leaf tensors -> Tensor (or list of Tensors)"""
-        la, lb = [leaf(a) for a in arrs], [leaf(a) for a in arrs]
+        # which operands require grad: all of them, or (every third case) a proper subset - the identity holds for whatever is being trained
+        req = [True] * len(arrs)
+        if c["seed"] % 3 == 1 and len(arrs) >= 2:
+            sub_ = gen.rng_for(c["seed"], "reqsubset")
+            req = [bool(sub_.integers(2)) for _ in arrs]
+            if not any(req):
+                req[int(sub_.integers(len(arrs)))] = True
+        la = [T(np.array(a, dtype=np.float64), requires_grad=r_) for a, r_ in zip(arrs, req)]
+        lb = [T(np.array(a, dtype=np.float64), requires_grad=r_) for a, r_ in zip(arrs, req)]
         oa, ob = fa(*la), fb(*lb)
         oa = list(oa) if isinstance(oa, (tuple, list)) else [oa]
         ob = list(ob) if isinstance(ob, (tuple, list)) else [ob]
@@ -117,12 +125,19 @@ def run_case(ns, mon, c):
                 res.append(("value", f"values differ by {float(np.max(np.abs(x_.data - y_.data))):.3g}"))
         if res:
             return res, nel
-        for x_, y_ in zip(oa, ob):
-            g = rng.standard_normal(x_.shape) if x_.shape else np.array(float(rng.uniform(0.5, 2)))
-            x_.backward(T(np.array(g)))
-            y_.backward(T(np.array(g)))
+        # each side is differentiated through those of its results that are differentiable (a result that only depends on operands not requiring
+        # grad may carry the flag on one side and not on the other - stack/unbind - without any gradient being different)
+        pairs_ = list(zip(oa, ob))
+        gs_ = [rng.standard_normal(x_.shape) if x_.shape else np.array(float(rng.uniform(0.5, 2))) for x_, _ in pairs_]
+        for (x_, y_), g in zip(pairs_, gs_):
+            if x_.requires_grad:
+                x_.backward(T(np.array(g)))
+            if y_.requires_grad:
+                y_.backward(T(np.array(g)))
         def cmp_grads(tag):
             for i, (p, q) in enumerate(zip(la, lb)):
+                if not req[i]:
+                    continue
                 ga = np.zeros_like(p.data) if p.grad is None else p.grad.data
                 gb = np.zeros_like(q.data) if q.grad is None else q.grad.data
                 sc = max(1.0, float(np.max(np.abs(ga))) if ga.size else 1.0)
@@ -132,10 +147,12 @@ def run_case(ns, mon, c):
         if not res:
             # both sides are differentiated a second time (gradient accumulation over the same graphs): they must still agree
             try:
-                for x_, y_ in zip(oa, ob):
+                for x_, y_ in pairs_:
                     g = rng.standard_normal(x_.shape) if x_.shape else np.array(float(rng.uniform(0.5, 2)))
-                    x_.backward(T(np.array(g)))
-                    y_.backward(T(np.array(g)))
+                    if x_.requires_grad:
+                        x_.backward(T(np.array(g)))
+                    if y_.requires_grad:
+                        y_.backward(T(np.array(g)))
                 cmp_grads("gradient-after-second-backward")
             except Exception as e:
                 res.append(("second-backward-raises", f"{type(e).__name__}: {str(e)[:80]}"))
@@ -204,7 +221,15 @@ def run_case(ns, mon, c):
 
             def short(v):          # the int shorthand for a square argument (every second case)
                 return int(v[0]) if (v[0] == v[1] and c["seed"] % 2 == 0) else tuple(v)
-            res, nel = both([x], lambda x_: f(x_, short(k), short(s), short(p), short(d)), compp)
+            if c["seed"] % 3 == 0 and R.out_len(H, k[0], k[0], p[0], d[0]) >= 1 and R.out_len(W, k[1], k[1], p[1], d[1]) >= 1:
+                # the layer form with its stride left at the default: the documented default is the kernel size (whatever the dilation)
+                s = list(k)
+                lH, lW = R.out_len(H, k[0], s[0], p[0], d[0]), R.out_len(W, k[1], s[1], p[1], d[1])
+                cls_ = nn.MaxPool2d if mx else nn.AvgPool2d
+                args_ = dict(c, layer_form_default_stride=True)
+                res, nel = both([x], lambda x_: cls_(short(k), None, short(p), short(d))(x_) if c["seed"] % 2 else cls_(short(k), padding=short(p), dilation=short(d))(x_), compp)
+            else:
+                res, nel = both([x], lambda x_: f(x_, short(k), short(s), short(p), short(d)), compp)
         elif ident in ("maxpool1d", "avgpool1d"):
             N, C, L, k, s, p, d = c["N"], c["C"], c["L"], c["k"], c["s"], c["p"], c["d"]
             lW = R.out_len(L, k, s, p, d)
@@ -215,7 +240,13 @@ def run_case(ns, mon, c):
                 cols = sg.unfold(x_.unsqueeze(2), (1, k), (1, d), (1, s), (0, p), -np.inf if mx else 0).reshape((N, C, k, lW))
                 return cols.max(2) if mx else cols.mean(2)
             f = sg.max_pool1d if mx else sg.avg_pool1d
-            res, nel = both([x], lambda x_: f(x_, k, s, p, d), compp1)
+            if c["seed"] % 3 == 0 and R.out_len(L, k, k, p, d) >= 1:
+                s = k
+                lW = R.out_len(L, k, s, p, d)
+                cls_ = nn.MaxPool1d if mx else nn.AvgPool1d
+                res, nel = both([x], lambda x_: cls_(k, None, p, d)(x_) if c["seed"] % 2 else cls_(k, padding=p, dilation=d)(x_), compp1)
+            else:
+                res, nel = both([x], lambda x_: f(x_, k, s, p, d), compp1)
         elif ident == "sub":
             arrs = [rng.standard_normal(tuple(c["sa"])), rng.standard_normal(tuple(c["sb"]))]
             res, nel = both(arrs, lambda a, b: a - b, lambda a, b: a + (-b))
@@ -322,6 +353,9 @@ def run_case(ns, mon, c):
                 for l in layers:
                     a = l(a)
                 return a
+            if c["seed"] % 4 == 1:
+                seq.eval()                      # inference mode (saliency maps, adversarial inputs): still the composition, still differentiable
+                args = dict(args, eval_mode=True)
             res, nel = both([x], lambda a: seq(a) * 1.0, lambda a: compose(a) * 1.0)
         else:
             raise KeyError(ident)
